@@ -197,6 +197,12 @@ def main(argv):
     for kr in kani_results:
         backends.append({'backend': kr['backend'], 'unit': kr['unit'], 'wall_s': kr.get('wall_s'), 'checks': kr.get('checks'), 'failed_checks': kr.get('failed')})
         if kr['status'] == 'undecided':
+            reason = kr.get('reason') or ''
+            if kr.get('bounded') and re.search(r'timeout after|run out of memory|No exit code', reason):
+                # a BOUNDED stand-in that hit a resource limit was not explored: it is never counted as proved anyway, so it is recorded
+                # (bounded_units, explored=False) and does not make the run undecided — "held on everything explored" still stands
+                bounded_units.append({'unit': kr['unit'], 'bound': kr['bounded'], 'checks': 0, 'explored': False, 'reason': reason[-300:]})
+                continue
             undecided.append({'kani_unit': kr['unit'], 'reason': kr.get('reason')})
             continue
         if kr.get('bounded'):
